@@ -324,6 +324,8 @@ def truth(it: Interp, v):
         return True
     if isinstance(v, SRange):
         return truth(it, compare(it, ast.Lt(), v.start, v.stop))
+    if isinstance(v, CounterV):
+        return len(v.elems) > 0
     return True
 
 
@@ -1544,10 +1546,39 @@ def simple_module(it, name):
             return deep_copy(it, a[0])
         m.attrs.update({"deepcopy": Builtin("copy.deepcopy", deepcopy), "copy": Builtin("copy.copy", lambda it, a, k: shallow_copy(it, a[0]))})
     elif name == "collections":
-        pass
+        m.attrs["Counter"] = Builtin("collections.Counter", lambda it, a, k: CounterV(iterate(it, a[0]) if a else []))
     elif name == "pathlib":
         m.attrs["Path"] = Builtin("Path", lambda it, a, k: PathV())
     return m
+
+
+class CounterV:
+    """collections.Counter as a multiset (list of elements); only construction, subtraction, truthiness and elements() are modelled"""
+    def __init__(self, elems):
+        self.elems = list(elems)
+
+    def vc_binop(self, it, op, other, flip):
+        if not isinstance(op, ast.Sub) or flip or not isinstance(other, CounterV):
+            raise Unsupported("Counter operation other than subtraction")
+        it.trust("collections.Counter: multiset difference (counts never go below zero)")
+        rest = list(other.elems)
+        out = []
+        for x in self.elems:
+            for k, y in enumerate(rest):
+                if truth(it, values_equal(it, x, y)):
+                    del rest[k]
+                    break
+            else:
+                out.append(x)
+        return CounterV(out)
+
+    def vc_len(self, it):
+        return len(self.elems)
+
+    def vc_getattr(self, it, name):
+        if name == "elements":
+            return Builtin("Counter.elements", lambda it, a, k: PList(self.elems))
+        raise Unsupported("Counter." + name)
 
 
 class PathV:
